@@ -314,6 +314,9 @@ class Report:
         rdir = os.path.join(VERIF, 'replays', 'tmp')
         shown = 0
         for sig, desc, replay in self.viol:
+            if shown >= 25:
+                shown += 1
+                continue
             os.makedirs(rdir, exist_ok=True)
             path = os.path.join(rdir, f'{self.pid}-{digest(sig)}.json')
             with open(path, 'w') as fh:
@@ -333,7 +336,7 @@ class Report:
                 print(f'  {desc}'[:600])
             shown += 1
         if shown > 25:
-            print(f'  ... {shown - 25} more violations (replay files written)')
+            print(f'  ... {shown - 25} more violations (not written out)')
         ev = {
             'property_id': self.pid,
             'tier': self.tier,
